@@ -67,12 +67,19 @@ class AmpersandOperatorToken(CompositeBaseToken):
         return self.value[0]
 
 
-class PercentOperatorToken(CompositeBaseToken):
-    _TOKEN_SETS = [[PercentToken]]
+class PercentOperatorToken(RecursiveCompositeBaseToken):
+    _TOKEN_SETS = [[PercentToken, CLS], [PercentToken]]
 
     @property
     def operator(self):
         return self.value[0]
+
+    @property
+    def count(self) -> int:
+        """
+        The number of percent signs in a row: 5%% is 5 / 100 / 100
+        """
+        return 1 + (self.value[1].count if len(self.value) == 2 else 0)
 
 
 class OperandToken(CompositeBaseToken):
@@ -129,6 +136,8 @@ class ExpressionToken(RecursiveCompositeBaseToken):
                    [OneOperandArithmeticOperatorToken, CLS],
                    [OneLeftOperandExpressionToken, OperatorToken, CLS],
                    [OneLeftOperandExpressionToken],
+                   [BracketStartToken, CLS, BracketFinishToken, PercentOperatorToken, OperatorToken, CLS],
+                   [BracketStartToken, CLS, BracketFinishToken, PercentOperatorToken],
                    [BracketStartToken, CLS, BracketFinishToken, OperatorToken, CLS],
                    [BracketStartToken, CLS, BracketFinishToken], [OperandToken]]
 
